@@ -35,6 +35,7 @@
 #include <charconv>
 #include <cmath>
 #include <cstdint>
+#include <cstdio>
 #include <cstdlib>
 #include <cstring>
 #include <functional>
@@ -855,7 +856,7 @@ private:
     case JsonType::Int:
       return std::to_string(getInt());
     case JsonType::Double:
-      return std::to_string(getDouble());
+      return _formatDouble(getDouble());
     case JsonType::String:
       return _escapeString(getString());
     case JsonType::Array:
@@ -865,6 +866,25 @@ private:
     default:
       return "null";
     }
+  }
+
+  // Shortest decimal text that parses back to exactly the same double. A decimal
+  // point or exponent is always present so the value re-parses as a double.
+  static std::string _formatDouble(double d)
+  {
+    if (!std::isfinite(d))
+      return std::to_string(d);
+    char buf[40];
+    for (int precision = 15; precision <= 17; ++precision)
+    {
+      std::snprintf(buf, sizeof(buf), "%.*g", precision, d);
+      if (std::strtod(buf, nullptr) == d)
+        break;
+    }
+    std::string out(buf);
+    if (out.find_first_of(".eE") == std::string::npos)
+      out += ".0";
+    return out;
   }
 
   std::string _serializeArray(const SerializeOptions &options, int depth) const
